@@ -108,3 +108,25 @@ Qed.
 (* the unsorted list leaves the netlist unsettled: this is what the sorter is for *)
 Lemma two_bad_unsettled : ~ settled two_bad (propagateAll two_bad [0; 0; 0]%Z).
 Proof. intros H. specialize (H leaf_buf (or_introl eq_refl)). vm_compute in H. discriminate. Qed.
+
+(* the sorter's graph for two_bad (leaf 0 = buf, leaf 1 = not; not feeds buf) and what it does with it *)
+Definition two_bad_succ (x : nat) : list nat := match x with 1 => [0] | _ => [] end.
+
+Lemma two_bad_represents : represents (combs two_bad) two_bad_succ /\ (forall i, ~ self_loop two_bad_succ i) /\
+  single_driver (combs two_bad) /\
+  sort_fuel two_bad_succ py4hw_loop_limit (seq 0 (length (combs two_bad))) = Some [1; 0] /\
+  reorder (combs two_bad) [1; 0] = combs two_good.
+Proof.
+  split; [|split; [|split; [|split]]].
+  - intros i j a b Hi Hj.
+    destruct i as [|[|i]], j as [|[|j]]; simpl in Hi, Hj; try (destruct i; discriminate); try (destruct j; discriminate);
+      injection Hi as <-; injection Hj as <-; unfold feeds; simpl; split.
+    all: try (intros []; fail).
+    all: try (intros (w & Ho & Hin); simpl in Ho, Hin; intuition; subst; discriminate).
+    + intros _. exists 1. auto.
+    + intros [E|[]]. discriminate.
+  - intros [|[|i]]; unfold self_loop; simpl; intuition discriminate.
+  - unfold single_driver. simpl. constructor; [simpl; intuition discriminate|]. constructor; [simpl; tauto|]. constructor.
+  - vm_compute. reflexivity.
+  - reflexivity.
+Qed.
